@@ -143,7 +143,18 @@ class Srv6SidInformation:
 
     def json(self, compact: bool | None = None) -> str:
         s: str = '{{ "sid": "{}", "flags": 0, "endpoint_behavior": {}'.format(str(self.sid), self.behavior)
-        content: str = ', '.join(subsubtlv.json() for subsubtlv in self.subsubtlvs)
+        # the sub-sub-TLVs are members of this object.  One we do not know renders as an object of its
+        # own ({"type": .., "raw": ..}), which is not a member: they are gathered in a list under one key
+        members: list[str] = []
+        unknown: list[str] = []
+        for subsubtlv in self.subsubtlvs:
+            if isinstance(subsubtlv, GenericSrv6ServiceDataSubSubTlv):
+                unknown.append(subsubtlv.json())
+            else:
+                members.append(subsubtlv.json())
+        if unknown:
+            members.append('"unknown-sub-sub-tlvs": [ {} ]'.format(', '.join(unknown)))
+        content: str = ', '.join(members)
         if content:
             s += ', {}'.format(content)
         s += ' }'
